@@ -591,9 +591,9 @@ def encl_cases(tier, rng):
         continue
       for size in range(1, 65):
         for ai, a in enumerate(alphas):
-          if tier != "quick" and ((ai > 0 and (size % 3 != ai % 3 or size > 48)) or (size > 48 and size % 4)):
-            continue      # thorough: every size <= 48 (and every 4th up to 64) with the default alpha,
-                          # a third of the sizes <= 48 per other alpha
+          if tier != "quick" and ((ai > 0 and (size % 3 != ai % 3 or size > 32)) or (size > 32 and size % 4)):
+            continue      # thorough: every size <= 32 (and every 4th up to 64) with the default alpha,
+                          # a third of the sizes <= 32 per other alpha
           for n in range(size):
             combos.append((p, symm, size, a, n))
   if tier == "quick":
